@@ -73,7 +73,9 @@ class ConFIG(Aggregator):
     def forward(self, matrix: Tensor) -> Tensor:
         weights = self.weighting(matrix)
         units = torch.nan_to_num((matrix / (matrix.norm(dim=1)).unsqueeze(1)), 0.0)
-        best_direction = torch.linalg.pinv(units) @ weights
+        # pinv(units) = units^T pinv(units units^T): taking the pseudo-inverse of the Gramian keeps the
+        # tolerance under which singular values are discarded independent of the number of columns.
+        best_direction = units.T @ (torch.linalg.pinv(units @ units.T) @ weights)
 
         if best_direction.norm() == 0:
             unit_target_vector = torch.zeros_like(best_direction)
